@@ -207,7 +207,8 @@ class ManagerMachine(Machine):
         elif theme == "offeq":
             offEq = True
             variants = ["V0", rng.choice(["V6", "V1"])]
-            weights.update(colldir=3, config=1, detonation=0, arm=1, hydro=1)
+            weights.update(colldir=6, config=1, detonation=0, arm=1, hydro=1, thermo=0,
+                           new_model=0, lte=0)
             good = [t for t in good if t >= 7.0]
         elif theme == "lowT":
             good = [5.5, 5.8, 6.5]
@@ -345,7 +346,8 @@ class ManagerMachine(Machine):
         # most of the time repeat the last question put to this manager
         if self.valid and self.lastQuestion is not None and self.prevOp in (
                 "config", "colldir", "hydro", "thermo", "new_model", "arm", "lte",
-                "detonation", "solve") and rng.random() < 0.6:
+                "detonation", "solve") and rng.random() < (0.9 if self.prevOp == "colldir"
+                                                           else 0.6):
             self.ctx.probes["question_repeated_after_perturbation"] += 1
             return dict(self.lastQuestion)
         if op == "setup":
@@ -353,7 +355,8 @@ class ManagerMachine(Machine):
                 return {"op": "setup", "point": rng.choice(cfg["bad"])}
             return {"op": "setup", "point": rng.choice(cfg["good"])}
         if op == "solve":
-            offEq = bool(cfg["offEq"] and rng.random() < 0.6)
+            offEq = bool(cfg["offEq"] and rng.random() < (0.9 if cfg.get("theme") == "offeq"
+                                                          else 0.6))
             return {"op": "solve", "settings": rng.choice(cfg["settings"]), "offEq": offEq}
         if op == "detonation":
             return {"op": "detonation", "settings": rng.choice(cfg["settings"])}
